@@ -99,9 +99,12 @@ def run_impl(sc):
         class Sched(ActionScheduler):
             def default_action(self, obj, time, new_state):
                 # last field: the scheduler, asked during the action, is in the state the timetable prescribes (2: a stale state)
-                calls.append([obj.i, -1, to_ticks(time), new_state, 1 if self.current_state == new_state else 2])
+                calls.append([obj.i, -1, to_ticks(time), ST(new_state), 1 if self.current_state == new_state else 2])
 
-        schedule = [(d / TICK, s) for d, s in sc['schedule']]
+        # state number 3 is the Python value None: a legal state like any other (it must not be taken for "not started yet")
+        def ST(x):
+            return 3 if x is None else x
+        schedule = [(d / TICK, None if s == 3 else s) for d, s in sc['schedule']]
         if sc['cyclic'] is None:
             sched = Sched(schedule, 'sched')
         else:
@@ -112,7 +115,7 @@ def run_impl(sc):
 
         def make_override(k):
             def action(scheduler, obj, time, new_state):
-                calls.append([obj.i, k, to_ticks(time), new_state,
+                calls.append([obj.i, k, to_ticks(time), ST(new_state),
                               0 if scheduler is not sched else (1 if scheduler.current_state == new_state else 2)])
             return action
         overrides = {0: make_override(0), 1: make_override(1)}
@@ -186,7 +189,8 @@ def run_impl(sc):
             except IndexError:
                 st = 2
             regs = [[o.i, -1 if a is None else ovid[id(a)]] for o, a in sched._registered_objects.items()]
-            out = [-777, st, sched._schedule_index, -1 if sched._state is None else sched._state, len(regs)]
+            started = len(datalog) > 0          # (a state change has been recorded)
+            out = [-777, st, sched._schedule_index, ST(sched.current_state) if started else -1, len(regs)]
             for r in regs:
                 out += r
             out.append(len(calls))
@@ -209,11 +213,11 @@ def run_impl(sc):
             for label, sub, dp in new:
                 if label != 'schedule_update':
                     raise Discard('unexpected label')
-                rec = [5, 2, to_ticks(dp[0]), dp[1]]
+                rec = [5, 2, to_ticks(dp[0]), ST(dp[1])]
                 drecs.append(rec)
                 out += rec
             flat += out
-            obs.append(dict(op=x, st=st, now=to_ticks(env.now), index=sched._schedule_index, state=sched._state, regs=regs,
+            obs.append(dict(op=x, st=st, now=to_ticks(env.now), index=sched._schedule_index, state=(ST(sched.current_state) if started else None), regs=regs,
                             calls=[list(c) for c in calls], results=[list(r) for r in results], events=q, data=drecs))
     return flat, obs
 
